@@ -32,6 +32,7 @@ type Config struct {
 	ServerFC string              `json:"server_fc,omitempty"` // network-server (handler) side: on | off | legacy
 	Cap      int                 `json:"cap,omitempty"`       // carrier capacity in frames per direction; 0 = unbounded
 	Tunnels  []TunnelSpec        `json:"tunnels,omitempty"`   // one entry per tunnel opened at start (default: one)
+	Carrier    string       `json:"carrier,omitempty"` // "" = memconn (harness-owned), "bufconn" = real grpc-go over an in-process pipe (free-running only)
 	HasKeyFn bool                `json:"has_key_fn,omitempty"`
 	DrainEvery int               `json:"drain_every,omitempty"` // every n tape steps deliver everything in flight and take an accounting snapshot
 	OpenMD   map[string][]string `json:"open_md,omitempty"` // default opening metadata
@@ -50,6 +51,8 @@ type MDOp struct {
 	Kind string              `json:"kind"` // sethdr sendhdr settrl send
 	MD   map[string][]string `json:"md,omitempty"`
 	Idx  int                 `json:"idx,omitempty"` // send: index into Resp
+	BigKeys       int        `json:"big_keys,omitempty"`        // header operations: add this many generated keys
+	CancelAfterUs int        `json:"cancel_after_us,omitempty"` // free-running engines: cancel the RPC this many microseconds after the operation returned
 }
 
 type Creds struct {
